@@ -1114,6 +1114,39 @@ func readerBytes(fr *frame, r value) []byte {
 			}
 		}
 	}
+	// a wrapper struct around a reader (io.NopCloser, a harness body type): look inside
+	var st structure
+	var stType types.Type = iv.t
+	switch v := iv.v.(type) {
+	case structure:
+		st = v
+	case *value:
+		if v != nil {
+			if s2, ok := (*v).(structure); ok {
+				st = s2
+				if p2, ok := iv.t.Underlying().(*types.Pointer); ok {
+					stType = p2.Elem()
+				}
+			}
+		}
+	}
+	if st != nil {
+		if sts, ok := stType.Underlying().(*types.Struct); ok {
+			for k := 0; k < sts.NumFields() && k < len(st); k++ {
+				ft := sts.Field(k).Type()
+				switch fv := st[k].(type) {
+				case iface:
+					if fv.t != nil {
+						return readerBytes(fr, fv)
+					}
+				case *value:
+					if _, isPtr := ft.Underlying().(*types.Pointer); isPtr && fv != nil {
+						return readerBytes(fr, iface{t: ft, v: fv})
+					}
+				}
+			}
+		}
+	}
 	panic(unsupported{"json.NewDecoder over reader type " + iv.t.String()})
 }
 
